@@ -215,21 +215,21 @@ class ForwardScheduler(IScheduler):
             left_hours: float,
             max_steps: int = 100000
     ) -> datetime:
-        if left_hours == 0:
+        if left_hours <= _EPSILON:
             return start_date
 
         date = datetime(start_date.year, start_date.month, start_date.day, 0, 0, 0, 0) - timedelta(days=1)
 
         days = 0
         date_available_units = 0
-        while left_hours > 0:
+        while left_hours > _EPSILON:
             date += timedelta(days=1)
             reserved = resource_usage.reserved(resource, date) if self.__balance_resources \
                 else resource_usage.reserved(resource, date, task)
 
             date_available_units = resource.get_available_units(date, task)
             max_available = date_available_units - reserved
-            if max_available > 0:
+            if max_available > _EPSILON:
                 left_hours -= resource_usage.reserve(resource, date, task, min(left_hours, max_available))
             days += 1
 
@@ -403,19 +403,19 @@ class BackwardScheduler(IScheduler):
             left_hours: float,
             max_steps: int = 100000
     ) -> datetime:
-        if left_hours == 0:
+        if left_hours <= _EPSILON:
             return start_date
 
         date = datetime(start_date.year, start_date.month, start_date.day, 0, 0, 0, 0)
 
         days = 0
-        while left_hours > 0:
+        while left_hours > _EPSILON:
             date += timedelta(days=-1)
             reserved = resource_usage.reserved(resource, date) if self.__balance_resources \
                 else resource_usage.reserved(resource, date, task)
 
             max_available = resource.get_available_units(date, task) - reserved
-            if max_available > 0:
+            if max_available > _EPSILON:
                 left_hours -= resource_usage.reserve(resource, date, task, min(left_hours, max_available))
             days += 1
 
